@@ -536,9 +536,7 @@ func checkDecorations(hi *Hist, bf *BarFacts, row string, completed, aborted boo
 	if hi.Sc.Cont.Terminal && hi.Sc.Cont.TermW < 150 {
 		return
 	}
-	if bf.Spec.Width > 0 && bf.Spec.Width < 150 {
-		return
-	}
+	// (BarWidth only bounds the filler: decorators and the filler's replacement message are cut by the row's width)
 	// the filler's on-complete / on-abort replacement (the on-abort middleware is applied last, so it is the outer one)
 	if aborted && bf.Spec.FillOnAbort && !strings.Contains(row, h.FillMsg(bf.Idx, 1)) {
 		add("filler-on-abort-missing", "bar %d was aborted but its row does not show the on-abort filler message %q: %q", bf.Idx, h.FillMsg(bf.Idx, 1), row)
